@@ -312,3 +312,293 @@ def local_memo_sites(repo: Repo, fi: FuncInfo) -> List[MemoSite]:
                 s.problems.append(("id-of-temporary", k, f"`{norm(k)[:60]}` takes the identity of a temporary; ids are reused once it is dropped"))
         sites.append(s)
     return sites
+
+
+# --------------------------------------------------------------------------
+# local caches whose key is a PROJECTION of a loop-variant object, while the cached value is computed from the whole object
+#   key = tuple(d.get(a) for a in attrs) ; if key not in cache: cache[key] = [h for h in hosts if match(h, d)]
+# Two objects with equal projections share the entry although `match` may read more of `d` than `attrs`.
+# --------------------------------------------------------------------------
+def projection_key_sites(fi: FuncInfo) -> List[Tuple[ast.AST, str]]:
+    from ..core import parent_map
+    from .provenance import all_roots
+    fn = fi.node
+    defs = local_defs(fn)
+    pm = parent_map(fn)
+    caches = {}
+    for nm, ds in defs.items():
+        for d in ds:
+            if d.kind == "assign" and (isinstance(d.value, ast.Dict) and not d.value.keys
+                                       or (isinstance(d.value, ast.Call) and dotted(d.value.func) in ("dict", "OrderedDict") and not d.value.args)):
+                caches.setdefault(nm, []).append(d.stmt)
+    out = []
+
+    def loops_of(node):
+        res, c = [], pm.get(node)
+        while c is not None and c is not fn:
+            if isinstance(c, (ast.For, ast.While)):
+                res.append(c)
+            c = pm.get(c)
+        return res
+
+    for n in walk_local(fn):
+        stores = []
+        if isinstance(n, ast.Assign) and len(n.targets) == 1 and isinstance(n.targets[0], ast.Subscript) and isinstance(n.targets[0].value, ast.Name) \
+                and n.targets[0].value.id in caches:
+            stores.append((n.targets[0].value.id, n.targets[0].slice, n.value))
+        elif isinstance(n, ast.Call) and isinstance(n.func, ast.Attribute) and n.func.attr == "setdefault" and isinstance(n.func.value, ast.Name) \
+                and n.func.value.id in caches and len(n.args) == 2:
+            stores.append((n.func.value.id, n.args[0], n.args[1]))
+        for cname, key, value in stores:
+            my_loops = loops_of(n)
+            init_loops = [set(map(id, loops_of(st))) for st in caches[cname]]
+            # loops that run while one cache object lives
+            live = [L for L in my_loops if not any(id(L) in il for il in init_loops)]
+            if not live:
+                continue
+            variant = set()
+            for L in live:
+                for t in ast.walk(L.target) if isinstance(L, ast.For) else []:
+                    if isinstance(t, ast.Name):
+                        variant.add(t.id)
+                for st in walk_local(L):
+                    if isinstance(st, ast.Assign):
+                        for t in st.targets:
+                            for x in ast.walk(t):
+                                if isinstance(x, ast.Name) and isinstance(x.ctx, ast.Store):
+                                    variant.add(x.id)
+            bound_in_value = {x.id for c in ast.walk(value) if isinstance(c, ast.comprehension) for x in ast.walk(c.target) if isinstance(x, ast.Name)}
+            key_roots = all_roots(defs, key)
+            whole_in_key = {r.id for r in key_roots if isinstance(r, ast.Name)}
+            for r in key_roots:   # id(x) pins x
+                if isinstance(r, ast.Call) and isinstance(r.func, ast.Name) and r.func.id == "id" and r.args and isinstance(r.args[0], ast.Name):
+                    whole_in_key.add(r.args[0].id)
+            projected = {}
+            for r in key_roots:
+                for c in ast.walk(r):
+                    base = None
+                    if isinstance(c, ast.Call) and isinstance(c.func, ast.Attribute) and c.func.attr == "get" and isinstance(c.func.value, ast.Name) and c.args:
+                        base, k = c.func.value.id, c.args[0]
+                    elif isinstance(c, ast.Subscript) and isinstance(c.value, ast.Name):
+                        base, k = c.value.id, c.slice
+                    if base is not None:
+                        projected.setdefault(base, set()).add(norm(k))
+            val_expr = origin(defs, value) if isinstance(value, ast.Name) else value
+            nested = {f.name: f for f in ast.walk(fn) if isinstance(f, (ast.FunctionDef, ast.AsyncFunctionDef)) and f is not fn}
+            key_labels = {}
+            for r in key_roots:
+                for nm_, labs in _reads_of_all(r).items():
+                    key_labels.setdefault(nm_, set()).update(labs)
+            for x_id in sorted({x.id for x in ast.walk(val_expr) if isinstance(x, ast.Name) and isinstance(x.ctx, ast.Load)}):
+                if x_id in bound_in_value or x_id not in variant or x_id == cname:
+                    continue
+                if x_id in whole_in_key or x_id not in key_labels:
+                    continue   # either pinned by the key, or not represented at all (that case belongs to local_memo_sites)
+                have = key_labels[x_id]
+                need = _reads_of(x_id, val_expr, nested)
+                missing = sorted(l for l in need if l not in have and l not in ("?",))
+                consts = [l for l in missing if l.startswith(("'", '"'))]
+                if consts:
+                    out.append((n, f"the key holds `{x_id}` only through {sorted(have)}, but the cached value also reads {consts} of it: "
+                                   f"two different `{x_id}` with the same projection share one entry"))
+                elif "?" in need or missing:
+                    out.append((n, f"UNDECIDED: the key holds `{x_id}` only through {sorted(have)}; what the cached value reads of it is not visible"))
+    return out
+
+
+def _label(k: ast.AST, scope: ast.AST) -> str:
+    """label of a projection key: a constant -> its repr; a name bound by a comprehension / for over a collection -> '*<collection>'; else '?'"""
+    if isinstance(k, ast.Constant):
+        return repr(k.value)
+    if isinstance(k, ast.Name):
+        for c in ast.walk(scope):
+            if isinstance(c, ast.comprehension) and any(isinstance(t, ast.Name) and t.id == k.id for t in ast.walk(c.target)) and isinstance(c.target, ast.Name):
+                return "*" + norm(c.iter)
+            if isinstance(c, ast.For) and isinstance(c.target, ast.Name) and c.target.id == k.id:
+                return "*" + norm(c.iter)
+    return "?"
+
+
+def _reads_of_all(tree: ast.AST):
+    """{name: labels} for every `name.get(k)` / `name[k]` in tree"""
+    out = {}
+    for c in ast.walk(tree):
+        if isinstance(c, ast.Call) and isinstance(c.func, ast.Attribute) and c.func.attr == "get" and isinstance(c.func.value, ast.Name) and c.args:
+            out.setdefault(c.func.value.id, set()).add(_label(c.args[0], tree))
+        elif isinstance(c, ast.Subscript) and isinstance(c.value, ast.Name):
+            out.setdefault(c.value.id, set()).add(_label(c.slice, tree))
+    return out
+
+
+def _reads_of(name: str, tree: ast.AST, nested, depth: int = 2):
+    """labels of everything `tree` reads of the mapping `name`: direct projections, and - when `name` is handed whole to a function defined in
+    the same enclosing function - what that function reads of the corresponding parameter; '?' for any other use"""
+    labels = set()
+    par = {}
+    for c in ast.walk(tree):
+        for ch in ast.iter_child_nodes(c):
+            par[ch] = c
+    for x in ast.walk(tree):
+        if not (isinstance(x, ast.Name) and x.id == name and isinstance(x.ctx, ast.Load)):
+            continue
+        p = par.get(x)
+        if isinstance(p, ast.Attribute) and p.attr == "get" and isinstance(par.get(p), ast.Call) and par[p].func is p and par[p].args:
+            labels.add(_label(par[p].args[0], tree))
+        elif isinstance(p, ast.Subscript) and p.value is x:
+            labels.add(_label(p.slice, tree))
+        elif isinstance(p, ast.Call) and x in p.args and isinstance(p.func, ast.Name) and p.func.id in nested and depth > 0:
+            f = nested[p.func.id]
+            params = [a.arg for a in f.args.posonlyargs + f.args.args]
+            i = p.args.index(x)
+            if i < len(params):
+                labels |= _reads_of(params[i], f, nested, depth - 1)
+            else:
+                labels.add("?")
+        else:
+            labels.add("?")
+    return labels
+
+
+# --------------------------------------------------------------------------
+# instance-level memo vs. mutable receiver state
+#   a method M answers from `self.F[key]` what it computed earlier from receiver fields R; another method m changes a field in R (assignment,
+#   item store, mutator call) and does not drop the memo afterwards -> M keeps serving the verdict of a state that no longer exists
+# --------------------------------------------------------------------------
+MUTATORS = {"append", "add", "update", "extend", "insert", "pop", "popitem", "clear", "remove", "discard", "setdefault", "sort", "reverse", "__setitem__"}
+
+
+def _self_fields_read(fn: ast.AST, methods, props, depth: int = 2, seen=None):
+    seen = seen if seen is not None else set()
+    out = set()
+    for n in ast.walk(fn):
+        if isinstance(n, ast.Attribute) and isinstance(n.value, ast.Name) and n.value.id == "self":
+            if n.attr in props and depth > 0 and n.attr not in seen:
+                seen.add(n.attr)
+                out |= _self_fields_read(props[n.attr], methods, props, depth - 1, seen)
+            elif n.attr in methods:
+                if depth > 0 and n.attr not in seen:
+                    seen.add(n.attr)
+                    out |= _self_fields_read(methods[n.attr], methods, props, depth - 1, seen)
+            elif isinstance(n.ctx, ast.Load):
+                out.add(n.attr)
+    return out
+
+
+def stale_instance_memo(fi_methods: List[FuncInfo]) -> List[Tuple[FuncInfo, ast.AST, str]]:
+    """fi_methods: the methods of ONE class.  Returns [(method that mutates, node, message)]."""
+    from .provenance import all_roots
+    methods, props = {}, {}
+    for f in fi_methods:
+        name = f.qual.split(".")[-1]
+        if ".<locals>." in f.qual:
+            continue
+        deco = [norm(d) for d in f.node.decorator_list]
+        (props if any(d in ("property", "cached_property", "functools.cached_property") for d in deco) else methods)[name] = f.node
+    by_name = {f.qual.split(".")[-1]: f for f in fi_methods if ".<locals>." not in f.qual}
+    out = []
+    for mname, mnode in methods.items():
+        if mname in ("__init__", "__post_init__"):
+            continue
+        # memo fields of this method: looked up and stored under a key in the same method, and a looked-up value can be returned
+        looked, stored = {}, {}
+        for n in ast.walk(mnode):
+            if isinstance(n, ast.Call) and isinstance(n.func, ast.Attribute) and n.func.attr == "get" and n.args \
+                    and isinstance(n.func.value, ast.Attribute) and isinstance(n.func.value.value, ast.Name) and n.func.value.value.id == "self":
+                looked.setdefault(n.func.value.attr, []).append((n, n.args[0]))
+            elif isinstance(n, ast.Subscript) and isinstance(n.ctx, ast.Load) and isinstance(n.value, ast.Attribute) and isinstance(n.value.value, ast.Name) \
+                    and n.value.value.id == "self":
+                looked.setdefault(n.value.attr, []).append((n, n.slice))
+            elif isinstance(n, ast.Assign):
+                for t in n.targets:
+                    if isinstance(t, ast.Subscript) and isinstance(t.value, ast.Attribute) and isinstance(t.value.value, ast.Name) and t.value.value.id == "self":
+                        stored.setdefault(t.value.attr, []).append((n, t.slice))
+        defs = local_defs(mnode)
+        rets = [r for r in walk_local(mnode) if isinstance(r, ast.Return) and r.value is not None]
+        for F in sorted(set(looked) & set(stored)):
+            lookups = {id(n) for n, _ in looked[F]}
+            if not any(id(r) in lookups for ret in rets for r in all_roots(defs, ret.value)):
+                continue
+            key_fields = set()
+            for _, k in looked[F] + stored[F]:
+                for r in all_roots(defs, k):
+                    for a in ast.walk(r):
+                        if isinstance(a, ast.Attribute) and isinstance(a.value, ast.Name) and a.value.id == "self":
+                            key_fields.add(a.attr)
+            R = _self_fields_read(mnode, methods, props) - {F} - key_fields
+            if not R:
+                continue
+            for oname, onode in methods.items():
+                if oname in (mname, "__init__", "__post_init__"):
+                    continue
+                writes, clears = [], []
+                for n in walk_local(onode):
+                    tg = []
+                    if isinstance(n, ast.Assign):
+                        tg = n.targets
+                    elif isinstance(n, ast.AugAssign):
+                        tg = [n.target]
+                    for t in tg:
+                        base = t.value if isinstance(t, ast.Subscript) else t
+                        if isinstance(base, ast.Attribute) and isinstance(base.value, ast.Name) and base.value.id == "self":
+                            if base.attr == F and not isinstance(t, ast.Subscript):
+                                clears.append(n)
+                            elif base.attr in R:
+                                writes.append((n, base.attr))
+                    if isinstance(n, ast.Call) and isinstance(n.func, ast.Attribute):
+                        recv = n.func.value
+                        if isinstance(recv, ast.Attribute) and isinstance(recv.value, ast.Name) and recv.value.id == "self":
+                            if recv.attr == F and n.func.attr == "clear":
+                                clears.append(n)
+                            elif recv.attr in R and n.func.attr in MUTATORS:
+                                writes.append((n, recv.attr))
+                        elif isinstance(recv, ast.Name) and recv.id == "self" and n.func.attr in methods and n.func.attr != mname:
+                            # a callee that drops the memo counts as a clear at the call
+                            callee = methods[n.func.attr]
+                            if any(isinstance(c, ast.Call) and isinstance(c.func, ast.Attribute) and c.func.attr == "clear" and norm(c.func.value) == f"self.{F}"
+                                   for c in ast.walk(callee)) or any(isinstance(a, ast.Assign) and any(norm(t) == f"self.{F}" for t in a.targets) for a in ast.walk(callee)):
+                                clears.append(n)
+                if not writes:
+                    continue
+                last_w = max(writes, key=lambda w: (w[0].lineno, w[0].col_offset))
+                if not any((c.lineno, c.col_offset) > (last_w[0].lineno, last_w[0].col_offset) for c in clears):
+                    out.append((by_name[oname], last_w[0], f"`{oname}` changes `self.{last_w[1]}`, which `{mname}` reads for the verdict it memoises in `self.{F}`, "
+                                                           f"and does not drop the memo afterwards: `{mname}` keeps answering for a state that no longer exists"))
+    return out
+
+
+# --------------------------------------------------------------------------
+# a memoising closure:  cache = {} ;  def f(a, b, c): key = (a, b) ; if key not in cache: cache[key] = g(c) ; return cache[key]
+# every parameter of the closure that the cached value is computed from has to be in the key
+# --------------------------------------------------------------------------
+def closure_memo_sites(fi: FuncInfo) -> List[Tuple[ast.AST, str]]:
+    from .provenance import all_roots
+    fn = fi.node
+    outer = local_defs(fn)
+    caches = {nm for nm, ds in outer.items() for d in ds if d.kind == "assign" and (isinstance(d.value, ast.Dict) and not d.value.keys
+                                                                                 or (isinstance(d.value, ast.Call) and dotted(d.value.func) in ("dict", "OrderedDict") and not d.value.args))}
+    out = []
+    for g in [x for x in ast.walk(fn) if isinstance(x, (ast.FunctionDef, ast.AsyncFunctionDef)) and x is not fn]:
+        gd = local_defs(g)
+        params = [a.arg for a in g.args.posonlyargs + g.args.args + g.args.kwonlyargs]
+        for st in walk_local(g):
+            if not (isinstance(st, ast.Assign) and len(st.targets) == 1 and isinstance(st.targets[0], ast.Subscript) and isinstance(st.targets[0].value, ast.Name)
+                    and st.targets[0].value.id in caches and st.targets[0].value.id not in gd):
+                continue
+            cname = st.targets[0].value.id
+            # the closure answers from the cache
+            if not any(isinstance(r, ast.Return) and r.value is not None and any(isinstance(x, ast.Subscript) and isinstance(x.value, ast.Name) and x.value.id == cname
+                                                                                   for x in all_roots(gd, r.value)) for r in walk_local(g)):
+                continue
+
+            def names_of(roots):
+                return {n.id for r in roots for n in ast.walk(r) if isinstance(n, ast.Name)}
+            in_key = names_of(all_roots(gd, st.targets[0].slice)) & set(params)
+            in_val = names_of(all_roots(gd, st.value)) & set(params)
+            # parameters tested on the way to the value (isinstance(per_eid, dict) ...) count as read
+            for t in [n.test for n in walk_local(g) if isinstance(n, (ast.If, ast.IfExp))]:
+                in_val |= {n.id for n in ast.walk(t) if isinstance(n, ast.Name)} & set(params)
+            missing = sorted(in_val - in_key)
+            if missing:
+                out.append((st, f"`{g.name}` caches its result in `{cname}` under {sorted(in_key)} but computes it from {missing} as well: "
+                                f"a later call with the same key and other {missing} is answered with the earlier value"))
+    return out
